@@ -1,5 +1,29 @@
 package props
 
-import "encoding/json"
+import (
+	"bytes"
+	"encoding/json"
+)
+
+// bytesRS is a plain in-memory read-seeker (a distinct type from bytes.Reader so that nothing in the
+// code under test can special-case it).
+type bytesRS struct {
+	data []byte
+	r    *bytes.Reader
+}
+
+func (b *bytesRS) init() {
+	if b.r == nil {
+		b.r = bytes.NewReader(b.data)
+	}
+}
+func (b *bytesRS) Read(p []byte) (int, error) { b.init(); return b.r.Read(p) }
+func (b *bytesRS) Seek(o int64, w int) (int64, error) {
+	b.init()
+	return b.r.Seek(o, w)
+}
+
 
 func jsonMarshal(v any) ([]byte, error) { return json.Marshal(v) }
+
+func bytesReader(b []byte) *bytesRS { return &bytesRS{data: b} }
